@@ -88,8 +88,28 @@ def build(r):
     if k == "None":
         return None
     if k == "P":
-        return parse(r[1])
+        t = parse(r[1])
+        if r[1] not in _PARSE_VERIFIED:
+            # harness self-test: the recipe recorded next to the text must describe the parser's output
+            if not _same_structure(t, build(r[2])):
+                raise AssertionError("parse(%r) is not %s" % (r[1], render_recipe(r[2])))
+            _PARSE_VERIFIED.add(r[1])
+        return t
     raise ValueError(r)
+
+
+_PARSE_VERIFIED = set()
+
+
+def _same_structure(x, y):
+    from problog.logic import Term
+
+    if not isinstance(x, Term) or not isinstance(y, Term):
+        return type(x) is type(y) and x == y
+    if type(x) is not type(y) or type(x.functor) is not type(y.functor) or repr(x.functor) != repr(y.functor) \
+            or x.arity != y.arity:
+        return False
+    return all(_same_structure(a, b) for a, b in zip(x.args, y.args))
 
 
 def _strip(s):
@@ -259,6 +279,32 @@ def canonical(a):
     return concretise(a, [0], [0])
 
 
+def as_parsed(a, quoted=False, neg_functor="\\+"):
+    """The constructor recipe of what the parser builds for text_of(a, quoted) (checked by the self-test in
+    check_pair: a parsed term and its recipe must be structurally identical)."""
+    k = a[0]
+    if k == "atom":
+        return ["T", _atom_text(a[1], quoted), []]
+    if k in ("int", "float"):
+        return ["C", a[1]]
+    if k == "str":
+        return ["C", '"%s"' % a[1]]
+    if k == "var":
+        return ["V", a[1]]
+    if k == "cmp":
+        return ["T", _atom_text(a[1], quoted), [as_parsed(x, quoted) for x in a[2]]]
+    if k == "neg":
+        return ["N", neg_functor, as_parsed(a[1], quoted)]
+    if k in ("and", "or", "clause"):
+        return [{"and": "A", "or": "O", "clause": "Cl"}[k], as_parsed(a[1], quoted), as_parsed(a[2], quoted)]
+    if k == "list":
+        tail = ["T", "[]", []] if a[2] is None else as_parsed(a[2], quoted)
+        for e in reversed(a[1]):
+            tail = ["T", ".", [as_parsed(e, quoted), tail]]
+        return tail
+    raise ValueError(a)
+
+
 def n_variants(a):
     return {"atom": 5, "int": 2, "float": 2, "str": 2, "var": 3, "cmp": 4, "neg": 6, "and": 4, "or": 4,
             "clause": 4, "list": 4, "ivar": 1, "anon": 1}[a[0]]
@@ -279,10 +325,10 @@ def concretise(a, bits, pos):
         if txt is None:
             return None
         if k == "neg" and quoted:
-            txt = "not %s" % text_of(a[1])
-            if a[1][0] in ("and", "or", "clause", "neg"):
+            if a[1][0] in ("and", "or", "clause", "neg") or text_of(a[1]) is None:
                 return None
-        return ["P", txt, canonical(a)]
+            return ["P", "not %s" % text_of(a[1]), ["N", "not", as_parsed(a[1])]]
+        return ["P", txt, as_parsed(a, quoted)]
 
     if k == "atom":
         name = a[1]
@@ -434,18 +480,18 @@ def _seed():
         return 1
 
 
-QUICK_PAIR_STRIDE = 3
+QUICK_PAIR_STRIDE = 4
 
 
 def enumerate_pairs(tier):
     u = universe()
+    shapes = [shape(r) for r in u]
     seed = _seed()
     i = 0
-    for x in u:
-        sx = shape(x)
-        for y in u:
+    for x, sx in zip(u, shapes):
+        for y, sy in zip(u, shapes):
             i += 1
-            if tier == "quick" and sx != shape(y) and \
+            if tier == "quick" and sx != sy and \
                     ((i * 2654435761 + seed * 40503) >> 5) % QUICK_PAIR_STRIDE != 0:
                 continue
             yield {"a": x, "b": y}
@@ -459,13 +505,13 @@ def enumerate_triples(tier):
         clusters.setdefault(shape(r), []).append(r)
     for key in sorted(clusters):
         members = clusters[key]
-        if len(members) > 14 and tier == "quick":
-            members = members[:14]
+        if len(members) > 10 and tier == "quick":
+            members = members[:10]
         for x, y, z in itertools.product(members, repeat=3):
             yield {"a": x, "b": y, "c": z}
     # arbitrary triples (deterministic sample)
     n = len(u)
-    count = 20000 if tier == "quick" else 400000
+    count = 10000 if tier == "quick" else 400000
     state = 12345 + seed
     for _ in range(count):
         state = (state * 6364136223846793005 + 1442695040888963407) % (1 << 64)
@@ -528,9 +574,10 @@ def _is_term(x):
 
 
 def difference(x, y):
-    """Root-cause label of the first structural difference between two built terms."""
-    from problog.logic import Term, Constant, Var, Not, And, Or, Clause
+    """Root-cause labels of all structural differences between two built terms, joined by ','."""
+    from problog.logic import Constant, Var, Not
 
+    labels = set()
     stack = [(x, y)]
     while stack:
         s, t = stack.pop()
@@ -539,53 +586,161 @@ def difference(x, y):
                 continue
             if type(s) is int and type(t) is int and s == t:
                 continue
-            return "engine-variable"
+            labels.add("engine-variable")
+            continue
         if isinstance(s, Var) or isinstance(t, Var):
             if isinstance(s, Var) and isinstance(t, Var):
-                if s.functor == t.functor:
-                    continue
-                return "different-variables"
+                if s.functor != t.functor:
+                    labels.add("different-symbols")
+                continue
             other = t if isinstance(s, Var) else s
-            return "var-vs-constant" if isinstance(other, Constant) else "var-vs-term"
+            v = s if isinstance(s, Var) else t
+            if other.arity == 0 and str(other.functor) == str(v.functor):
+                labels.add("var-vs-constant" if isinstance(other, Constant) else "var-vs-term")
+            else:
+                labels.add("different-symbols")
+            continue
         cs, ct = isinstance(s, Constant), isinstance(t, Constant)
         if cs and ct:
             fs, ft = s.functor, t.functor
             if type(fs) is type(ft):
                 if type(fs) is float and fs == ft and str(fs) != str(ft):
-                    return "negative-zero"
-                if fs == ft:
-                    continue
-                return "different-constants"
-            if str(fs) == str(ft):
-                return "constant-value-type"
-            if isinstance(fs, (int, float)) and isinstance(ft, (int, float)) and fs == ft:
-                return "int-vs-float"
-            return "different-constants"
+                    labels.add("negative-zero")
+                elif fs != ft:
+                    labels.add("different-symbols")
+            elif str(fs) == str(ft):
+                labels.add("constant-value-type")
+            else:
+                labels.add("different-symbols")
+            continue
         if cs != ct:
             c, o = (s, t) if cs else (t, s)
             if o.arity == 0 and _strip(str(c.functor)) == _strip(str(o.functor)):
                 if isinstance(c.functor, str):
-                    return "constant-vs-term"
-                return "atom-vs-number"
-            return "different-symbols"
+                    labels.add("constant-vs-term")
+                    if str(c.functor) != str(o.functor):
+                        labels.add("quoted-vs-unquoted-atom")
+                else:
+                    labels.add("atom-vs-number")
+            else:
+                labels.add("different-symbols")
+            continue
         # two Terms (possibly Not/And/Or/Clause)
         if s.arity != t.arity:
-            return "different-symbols"
+            labels.add("different-symbols")
+            continue
         fs, ft = str(s.functor), str(t.functor)
         if fs != ft:
             if isinstance(s, Not) and isinstance(t, Not):
-                label = "not-functor"
+                labels.add("not-functor")
             elif _strip(fs) == _strip(ft):
-                label = "quoted-vs-unquoted-atom"
-            elif {fs, ft} == {"\\+", "not"}:
-                label = "not-functor"
+                labels.add("quoted-vs-unquoted-atom")
+            elif {_strip(fs), _strip(ft)} == {"\\+", "not"}:
+                labels.add("not-functor")
             else:
-                return "different-symbols"
-            return label
+                labels.add("different-symbols")
+                continue
         if type(s) is not type(t):
-            return "operator-class-vs-term"
+            labels.add("operator-class-vs-term")
         stack.extend(zip(s.args, t.args))
-    return "identical-structure"
+    return ",".join(sorted(labels)) if labels else "identical-structure"
+
+
+# ------------------------------------------------------------------------------------------------ known classes
+#
+# Computed from the recipes alone.  A pair belongs to class X when the two recipes become identical once every
+# *listed* kind of discrepancy is erased, and do not become identical when all of them except X are erased.
+
+ALL_DISCREPANCIES = ("quote", "not", "opclass", "const", "var", "num", "negzero")
+
+
+def _is_numeric_text(txt):
+    try:
+        float(txt)
+        return True
+    except (TypeError, ValueError):
+        return False
+
+
+def _num(v, erase):
+    val = float(v)
+    return ("C", "num", repr(val + 0.0 if ("negzero" in erase and val == 0.0) else val))
+
+
+def normalise(r, erase):
+    """Recipe -> hashable tree with the discrepancies named in `erase` removed."""
+    k = r[0]
+    if k == "P":
+        return normalise(r[2], erase)
+    if k == "L":
+        tail = ["T", "[]", []]
+        for e in reversed(r[1]):
+            tail = ["T", ".", [e, tail]]
+        return normalise(tail, erase)
+    if k == "T":
+        f = r[1]
+        bare = f.strip("'")
+        if "quote" in erase:
+            f = bare
+        if not r[2]:
+            if "num" in erase and _is_numeric_text(bare):
+                return _num(bare, erase)
+            if "var" in erase and (f[:1].isupper() or f[:1] == "_"):
+                return ("V", f)
+        if "not" in erase and "opclass" in erase and len(r[2]) == 1 and bare in ("not", "\\+"):
+            f = "\\+"
+        return ("T", f, tuple(normalise(x, erase) for x in r[2]))
+    if k == "C":
+        v = r[1]
+        if isinstance(v, str):
+            if len(v) >= 2 and v[0] == '"' and v[-1] == '"':
+                return ("C", "str", v)
+            if "num" in erase and _is_numeric_text(v):
+                return _num(v, erase)
+            if "var" in erase and (v[:1].isupper() or v[:1] == "_"):
+                return ("V", v)
+            if "const" in erase:
+                return normalise(["T", v, []], erase)
+            return ("C", "str", v)
+        if "num" in erase:
+            return _num(v, erase)
+        if "negzero" in erase and isinstance(v, float) and v == 0.0:
+            v = 0.0
+        return ("C", type(v).__name__, repr(v))
+    if k == "V":
+        return ("V", r[1])
+    if k == "N":
+        f = "\\+" if "not" in erase else r[1]
+        if "opclass" in erase:
+            return ("T", f, (normalise(r[2], erase),))
+        return ("N", f, (normalise(r[2], erase),))
+    if k in ("A", "O", "Cl"):
+        op = {"A": ",", "O": ";", "Cl": ":-"}[k]
+        return ("T" if "opclass" in erase else k, op, (normalise(r[1], erase), normalise(r[2], erase)))
+    if k == "I":
+        return ("I", r[1])
+    if k == "None":
+        return ("None",)
+    raise ValueError(r)
+
+
+def differs_by(case, what):
+    ra, rb = case["a"], case["b"]
+    if normalise(ra, ALL_DISCREPANCIES) != normalise(rb, ALL_DISCREPANCIES):
+        return False
+    rest = tuple(x for x in ALL_DISCREPANCIES if x != what)
+    return normalise(ra, rest) != normalise(rb, rest)
+
+
+KNOWN_CLASSES = {
+    "differs_by_quotes": lambda case, failure: differs_by(case, "quote"),
+    "differs_by_not_functor": lambda case, failure: differs_by(case, "not"),
+    "differs_by_operator_class": lambda case, failure: differs_by(case, "opclass"),
+    "differs_by_constant_vs_term": lambda case, failure: differs_by(case, "const"),
+    "differs_by_var_vs_term": lambda case, failure: differs_by(case, "var"),
+    "differs_by_number_text": lambda case, failure: differs_by(case, "num"),
+    "differs_by_negative_zero": lambda case, failure: differs_by(case, "negzero"),
+}
 
 
 # ------------------------------------------------------------------------------------------------ oracle
@@ -619,6 +774,9 @@ def engine_unifies(x, y):
     except Exception as exc:
         _ENGINE[0] = None
         return plrun.classify_exception(exc)
+    except BaseException:  # watchdog timeout / interrupt: do not reuse the interrupted engine
+        _ENGINE[0] = None
+        raise
 
 
 def direct_unifies(x, y):
@@ -776,15 +934,13 @@ def render_case(case):
     return dict((k, render_recipe(v)) for k, v in case.items())
 
 
-KNOWN_CLASSES = {}
-
 SUBCHECKS = [
     SubCheck("pairs", check_pair, strategy=_pair_strategy, enumerate=enumerate_pairs,
-             budget={"quick": 8000, "thorough": 300000}, timeout={"quick": 10, "thorough": 20},
+             budget={"quick": 6000, "thorough": 300000}, timeout={"quick": 10, "thorough": 20},
              exhaustive="all ordered pairs of the recipe universe (quick: every same-shape pair and a 1-in-%d sample "
                         "of the others)" % QUICK_PAIR_STRIDE, render=render_case),
     SubCheck("triples", check_triple, strategy=_triple_strategy, enumerate=enumerate_triples,
              budget={"quick": 4000, "thorough": 200000}, timeout={"quick": 10, "thorough": 20},
-             exhaustive="all ordered triples inside every same-shape cluster of the universe (quick: first 14 members "
-                        "of a cluster) plus 20000 (thorough 400000) pseudo-random triples", render=render_case),
+             exhaustive="all ordered triples inside every same-shape cluster of the universe (quick: first 10 members "
+                        "of a cluster) plus 10000 (thorough 400000) pseudo-random triples", render=render_case),
 ]
